@@ -257,6 +257,9 @@ func genSpec(rc *RC, ns, marker string, stanzaOnly bool, big bool) *xSpec {
 	s.attrs = append(s.attrs, [2]string{"to", "peer@example.net"}, [2]string{"mk", marker})
 	if ch.Chance("workload", 1, 5) && s.space != "" {
 		s.attrs = append(s.attrs, [2]string{"xmlns", s.space}) // duplicate declaration
+	} else if s.space == "" && s.local != "x" && ch.Chance("workload", 1, 5) {
+		// an unqualified name that carries its namespace as a plain xmlns attribute (what a decoder's raw tokens look like)
+		s.attrs = append(s.attrs, [2]string{"xmlns", ns})
 	}
 	nk := ch.Range("workload", 0, 3)
 	for i := 0; i < nk; i++ {
